@@ -22,6 +22,8 @@ ASSUMPTIONS = [
     "initial_grid(1, 1) is refused by an explicit assertion and is not part of 'all grid shapes'",
 ]
 _i = st.integers
+# (tiny and huge units: the refinement must not depend on the absolute scale of the die)
+SPLIT_UNITS = D.UNITS_EXACT + D.UNITS_DEC + ["0.0001", "0.0001", "0.001", "0.00001", "1000", "250000"]
 
 
 def mkdie(c):
@@ -99,6 +101,8 @@ def run_split(c):
         cls.append("r<2")
     if any(rr.region not in ("_",) for rr in refinable0):
         cls.append("specialised")
+    if Fr(c["unit"]) <= Fr(1, 1000):
+        cls.append("tiny-die")
     if split:
         cls.append("split")
     if split and r < 2 and n > len(refinable0):
@@ -137,7 +141,7 @@ def run_grid(c):
 
 @st.composite
 def split_s(draw):
-    c = draw(D.die_case(max_regions=5))
+    c = draw(D.die_case(max_regions=5, units=SPLIT_UNITS))
     if draw(st.booleans()):
         c["r"] = draw(st.sampled_from([1.42, 1.42, 1.45, 1.5, 1.6, 1.75, 1.9, 1.99, 1.4151]))
     else:
@@ -159,6 +163,6 @@ def grid_s(draw):
 def subchecks():
     return [
         Sub("split", run_split, strategy=split_s(), n_quick=12000, n_thorough=300000,
-            required=("r<2", "specialised", "split", "count-driven-with-r<2")),
+            required=("r<2", "specialised", "split", "count-driven-with-r<2", "tiny-die")),
         Sub("grid", run_grid, strategy=grid_s(), n_quick=3000, n_thorough=60000, required=("rows!=cols", "square-grid")),
     ]
